@@ -588,3 +588,115 @@ func TestC10_DamagedTexts(t *testing.T) {
 	}
 	c10Dmg.rec().Exhaustive()
 }
+
+// ---------------------------------------------------------------------------
+// Numbers that alias admissible ones, enumerated. Every run of digits in the well-formed base texts (suite strings, URLs)
+// is replaced by v + k (k = 2^8, 2 x 2^8, 2^16, 2^32, and 20 digits ending in v), v - 2^8, and v with a sign or leading
+// zeros; hand-built configurations get the same values in every integer field. A range check made on a narrower type
+// than the value it guards lets exactly these through to a table index or a slice bound.
+
+var c10Alias = newPart("C10", "alias-numbers",
+	"complete product: every run of digits in 9 well-formed suite strings / URLs x {v+256, v+512, v+65536, v+2^32, 20 digits ending in v, v-256, +v, -v, 0v, 00v} through NewRawSuite (+ use of the result) / ParseOTPAuthURL, and hand-built configurations with digits / hash / challenge format / password hash / time step at v + {2^8, 2^9, 2^16, 2^32} and v - 2^8 (v over the admissible values) through Validate, NewSuite, GenerateOCRA and ValidateOCRA with admissible inputs and a code of the suite's length; oracle: no panic, no hang; every case distinct and non-trivial",
+	checkC10Dmg)
+
+type c10AliasCfgCase struct {
+	Cfg ref.OCRACfg `json:"cfg"`
+}
+
+var c10AliasCfg = newPart("C10", "alias-configurations",
+	"see alias-numbers: the hand-built configurations",
+	func(c c10AliasCfgCase) verdict {
+		lc := toLib(c.Cfg)
+		_ = lc.Validate()
+		otp.NewSuite(lc)
+		in := otp.OCRAInput{Counter: make([]byte, 8), Challenge: []byte("1234567890"), Password: make([]byte, 20), SessionInfo: []byte("s"), Timestamp: make([]byte, 8)}
+		otp.GenerateOCRA("MFRGGZDFMZTWQ2LK", lc, in)
+		otp.GenerateOCRA("MFRGGZDFMZTWQ2LK", otp.RawSuite{SuiteConfig: lc}, in)
+		for _, n := range []int{6, 10} {
+			otp.ValidateOCRA("MFRGGZDFMZTWQ2LK", "0000000000"[:n], lc, in)
+		}
+		_ = in.Validate(lc)
+		return ok(true)
+	})
+
+func TestC10_AliasNumbers(t *testing.T) {
+	defer c10Alias.rec().Flush()
+	defer c10AliasCfg.rec().Flush()
+	bases := map[string][]string{
+		"NewRawSuite": {"OCRA-1:HOTP-SHA1-6:QN08", "OCRA-1:HOTP-SHA256-8:C-QN08-PSHA1-S064-T1M", "OCRA-1:HOTP-SHA512-10:QH64-T30S", "OCRA-1:HOTP-SHA1-4:QA10-S128-T48H", "OCRA-1:HOTP-SHA1-6:C-QN08-PSHA512"},
+		"ParseOTPAuthURL": {"otpauth://totp/ACME:alice?secret=JBSWY3DPEHPK3PXP&digits=6&algorithm=SHA1&period=30", "otpauth://hotp/ACME:alice?secret=JBSWY3DPEHPK3PXP&digits=8&algorithm=SHA256&counter=5",
+			"otpauth://totp/ACME:alice?secret=JBSWY3DPEHPK3PXP&digits=10&algorithm=SHA512&period=1", "otpauth://totp/a:b?secret=ME&period=3600&digits=1"},
+	}
+	i := 0
+	for _, op := range []string{"NewRawSuite", "ParseOTPAuthURL"} {
+		for _, base := range bases[op] {
+			for a := 0; a < len(base); {
+				if base[a] < '0' || base[a] > '9' {
+					a++
+					continue
+				}
+				b := a
+				for b < len(base) && base[b] >= '0' && base[b] <= '9' {
+					b++
+				}
+				var v uint64
+				fmt.Sscan(base[a:b], &v)
+				vs := fmt.Sprint(v)
+				repl := []string{fmt.Sprint(v + 256), fmt.Sprint(v + 512), fmt.Sprint(v + 65536), fmt.Sprint(v + 1<<32), "18446744073709551616"[:20-len(vs)] + vs,
+					fmt.Sprint(int64(v) - 256), "+" + vs, "-" + vs, "0" + vs, "00" + vs}
+				for _, r := range repl {
+					i++
+					if ev.Mine(i) {
+						c10Alias.each(t, c10DmgCase{Op: op, Text: []byte(base[:a] + r + base[b:])})
+					}
+				}
+				a = b
+			}
+		}
+	}
+	c10Alias.rec().Exhaustive()
+	// hand-built configurations
+	off := []int{1 << 8, 1 << 9, 1 << 16, 1 << 32, -(1 << 8)}
+	usable := ref.OCRACfg{Raw: "x", Hash: 0, Digits: 6, C: true, Q: true, P: true, S: true, T: true, QFormat: 1, PHash: 1, TimeStep: 30, SessionNN: -1}
+	for _, o := range off {
+		for d := 4; d <= 10; d++ {
+			c := usable
+			c.Digits = d + o
+			i++
+			if ev.Mine(i) {
+				c10AliasCfg.each(t, c10AliasCfgCase{Cfg: c})
+			}
+		}
+		for h := 0; h <= 2; h++ {
+			c := usable
+			c.Hash = h + o
+			i++
+			if ev.Mine(i) {
+				c10AliasCfg.each(t, c10AliasCfgCase{Cfg: c})
+			}
+		}
+		for q := 1; q <= 6; q++ {
+			c := usable
+			c.QFormat = q + o
+			i++
+			if ev.Mine(i) {
+				c10AliasCfg.each(t, c10AliasCfgCase{Cfg: c})
+			}
+		}
+		for p := 1; p <= 3; p++ {
+			c := usable
+			c.PHash = p + o
+			i++
+			if ev.Mine(i) {
+				c10AliasCfg.each(t, c10AliasCfgCase{Cfg: c})
+			}
+		}
+		c := usable
+		c.TimeStep = 30 + o
+		i++
+		if ev.Mine(i) {
+			c10AliasCfg.each(t, c10AliasCfgCase{Cfg: c})
+		}
+	}
+	c10AliasCfg.rec().Exhaustive()
+}
